@@ -5,9 +5,9 @@ patch=$(realpath "$1"); prop="$2"; tier="${3:-quick}"
 cd /repo || exit 2
 if ! git diff --quiet; then echo "repo dirty"; exit 2; fi
 if ! git apply --check "$patch" 2>/dev/null; then
-  if git apply --3way --check "$patch" 2>/dev/null; then :; else echo "PATCH DOES NOT APPLY"; exit 3; fi
+  echo "PATCH DOES NOT APPLY"; exit 3
 fi
-git apply "$patch" || git apply --3way "$patch"
+git apply "$patch"
 /verif/bin/check "$prop" "$tier" | grep -v "^  \[discharged" | cut -c1-600
 rc=$?
 git -C /repo checkout -q -- . ; git -C /repo clean -fdq
